@@ -118,6 +118,7 @@ def cluster_check(run, case, toks):
 
 def check(run):
     import genlib
+    genlib.validate_tabulation_objects(run, kinds=("setfl_fs", "tabeam_fs"), n=run.n(6, 50))
     genlib.validate_eam_writer(run, "tabeam_fs", n=run.n(10, 100))
     genlib.validate_eam_writer(run, "setfl_fs", n=run.n(10, 100))
     run.rule = ("asymmetric Finnis-Sinclair tracer models (1..4 species, every ordered pair its own function id, random undeclared combinations, "
